@@ -10,7 +10,6 @@
 
 use std::cell::RefCell;
 use std::collections::HashMap;
-use std::collections::HashSet;
 
 thread_local! {
 	static IMPORT_PERMUTATION: RefCell<Option<usize>> = RefCell::new(None);
@@ -31,7 +30,9 @@ pub fn last_import_count() -> usize
 	LAST_IMPORT_COUNT.with(|x| *x.borrow())
 }
 
-pub fn order_imports(imports: HashSet<(usize, usize)>) -> Vec<(usize, usize)>
+pub fn order_imports(
+	imports: impl IntoIterator<Item = (usize, usize)>,
+) -> Vec<(usize, usize)>
 {
 	let selected = IMPORT_PERMUTATION.with(|x| *x.borrow());
 	let mut pairs: Vec<(usize, usize)> = imports.into_iter().collect();
@@ -39,7 +40,7 @@ pub fn order_imports(imports: HashSet<(usize, usize)>) -> Vec<(usize, usize)>
 	let Some(mut k) = selected
 	else
 	{
-		// No permutation installed: keep the hash order of the set.
+		// No permutation installed: keep the iteration order of the set.
 		return pairs;
 	};
 	pairs.sort();
